@@ -1047,6 +1047,30 @@ pub mod verif_hooks {
         }
     }
 
+    /// `RawTablet::from_custom_payload(payload)`; when it yields a tablet, the real
+    /// `ClusterState::update_tablets(vec![(table, raw_tablet)])` on `state`. Returns whether a
+    /// tablet was learnt.
+    pub fn learn_tablet_from_payload(
+        state: &mut ClusterState,
+        ks: &str,
+        table: &str,
+        payload: &HashMap<String, bytes::Bytes>,
+    ) -> bool {
+        match crate::routing::locator::tablets::RawTablet::from_custom_payload(payload) {
+            Some(Ok(raw)) => {
+                state.update_tablets(vec![(
+                    crate::frame::response::result::TableSpec::owned(
+                        ks.to_owned(),
+                        table.to_owned(),
+                    ),
+                    raw,
+                )]);
+                true
+            }
+            _ => false,
+        }
+    }
+
     struct RejectAll;
     impl crate::policies::host_filter::HostFilter for RejectAll {
         fn accept(&self, _peer: &crate::cluster::metadata::Peer) -> bool {
